@@ -317,8 +317,13 @@ def o5_o6(ctx, rep):
             rep.violation(rule, short(fn), "truncate_wal|missing", "%s no longer truncates the WAL (anchor changed)" % short(fn), site=body.span)
             continue
         for q in qs:
+            n += 1
             nw, ns = durable_before(ctx, rep, rule, body, q, ("ht",), "truncate_wal@%s" % body.term(q).get("ln", "").split(":")[-1])
-            n += nw
+            # no hash-table write may start after the WAL was truncated (it would not be redoable)
+            after = body.reachable(body.succ(q), body.ok_removed())
+            for it in norm_items(dedup(ctx.model.items_at(body, "ret"))):
+                if it.event.kind in ("write", "resize") and it.event.cls == "ht" and it.chain[0][2] in after:
+                    rep.violation(rule, short(fn), "truncate_wal|then|%s" % it.event.key(), "%s (at %s) can start after the WAL was truncated at %s: the page would not be redoable after a crash [path: %s]" % (it.event.key(), it.event.site, body.term(q).get("ln"), chain_str(it)), site=it.event.site)
     return n
 
 
